@@ -139,7 +139,13 @@ func WithVars(vars map[string]any) QueryOption {
 	}
 }
 
-func New(data Map, query string, options ...QueryOption) (*Query, error) {
+func New(data Map, query string, options ...QueryOption) (result *Query, err error) {
+	// building a query already evaluates FROM paths, CTEs, derived tables and joins
+	defer func() {
+		if r := recover(); r != nil {
+			result, err = nil, recovered(r)
+		}
+	}()
 	q := &Query{
 		offsetDefinition:    -1,
 		limitDefinition:     -1,
@@ -1797,10 +1803,18 @@ func ExecOrderBy(query *Query, current []any) ([]any, error) {
 	return current, nil
 }
 
+// recovered turns the value of a recovered panic into an error (a panic value need not be one)
+func recovered(r any) error {
+	if err, ok := r.(error); ok {
+		return err
+	}
+	return fmt.Errorf("%v", r)
+}
+
 func (query *Query) exec() (result any, err error) {
 	defer func() {
 		if r := recover(); r != nil {
-			err = r.(error)
+			result, err = nil, recovered(r)
 		}
 	}()
 	if query.dual {
@@ -1902,6 +1916,12 @@ func (query *Query) execAndPostProcess() (result any, err error) {
 }
 
 func (query *Query) Exec() (result []any, err error) {
+	// post-processors run outside the recover of exec
+	defer func() {
+		if r := recover(); r != nil {
+			result, err = nil, recovered(r)
+		}
+	}()
 	rs, err := query.execAndPostProcess()
 	if err != nil {
 		return nil, err
